@@ -20,6 +20,7 @@ VERUS_TOOLCHAIN = '1.98.1-x86_64-unknown-linux-gnu'
 EXT_CRATES = {  # crate -> (registry dir glob, lib path, edition, extra rustc args)
     'fnv': ('fnv-1.0.7', 'lib.rs', '2018', []),
     'smallvec': ('smallvec-1.13.1', 'src/lib.rs', '2018', []),
+    'byteorder': ('byteorder-1.5.0', 'src/lib.rs', '2021', ['--cfg', 'feature="std"']),
 }
 
 # Verus diagnostics that mean "a proof obligation was not discharged"
